@@ -1,12 +1,12 @@
 package checks
 
 import (
-	"verif/internal/engine"
-	"verif/internal/bdd"
 	"fmt"
 	"go/types"
 	"sort"
 	"strings"
+	"verif/internal/bdd"
+	"verif/internal/engine"
 
 	"golang.org/x/tools/go/ssa"
 
@@ -96,6 +96,9 @@ func c10(cx *Ctx, r *ev.Report) {
 		det = append(det, m+": map update below Step/Run")
 	}
 	for _, m := range eff.Sends {
+		if handoffOK(cx) && cx.runSem().okSelects[m] {
+			continue // the goroutine posting the context's error to Run: part of the hand-off C13 verified
+		}
 		det = append(det, m+": channel send below Step/Run")
 	}
 	// reads of mutable globals: a global read below Step must never be written outside init
@@ -142,6 +145,9 @@ func c10(cx *Ctx, r *ev.Report) {
 			absint.PureLibrary(name) || absint.PlainLibraryCode(name) || strings.HasPrefix(name, "log.Print") || strings.HasPrefix(name, "context.With") || name == "context.AfterFunc" {
 			ok = true
 		}
+		if !ok && handoffOK(cx) && cx.runSem().syncCalls[name] {
+			ok = true // part of the hand-off between Run and its goroutine, verified by C13's protocol rules
+		}
 		if !ok {
 			det = append(det, "call of "+name+" below Step/Run (not on the whitelist: time, randomness, shared library state?)")
 		}
@@ -176,6 +182,12 @@ func c10(cx *Ctx, r *ev.Report) {
 				if sel, ok := in.(*ssa.Select); ok {
 					// a non-blocking poll of one channel has one outcome per channel state; a
 					// select over several ready channels picks at random
+					if handoffOK(cx) && cx.runSem().okSelects[cx.P.Pos(in.Pos())] {
+						// the blocking select of a verified watcher goroutine (C13): the
+						// cancellation and "Run is over" - when both are ready Run has returned
+						// already, so the choice decides nothing Run computes
+						continue
+					}
 					if sel.Blocking || len(sel.States) > 1 {
 						det = append(det, cx.P.Pos(in.Pos())+": select over several channels (or blocking) below Step/Run")
 					}
@@ -184,6 +196,51 @@ func c10(cx *Ctx, r *ev.Report) {
 		}
 	}
 	r.Check(len(det) == 0, "C10/determinism/no-map-iteration", "NO-NONDETERMINISM: no map iteration or select below Step/Run", cx.P.Pos(cx.E.Step.Pos()), "shape", det...)
+
+	// sync/atomic is on the whitelist for cells private to one Run; on a
+	// package-level variable it is state shared by all CPUs (race-free, but one
+	// CPU's execution can then influence another's)
+	det = nil
+	atomics := 0
+	for _, f := range fns {
+		for _, b := range f.Blocks {
+			for _, in := range b.Instrs {
+				ci, ok := in.(ssa.CallInstruction)
+				if !ok || ci.Common().IsInvoke() || len(ci.Common().Args) == 0 {
+					continue
+				}
+				callee := ci.Common().StaticCallee()
+				if callee == nil || callee.Pkg == nil && (callee.Origin() == nil || callee.Origin().Pkg == nil) {
+					continue
+				}
+				pk := callee.Pkg
+				if pk == nil {
+					pk = callee.Origin().Pkg
+				}
+				if pk.Pkg.Path() != "sync/atomic" && pk.Pkg.Path() != "sync" {
+					continue
+				}
+				atomics++
+				v := ci.Common().Args[0]
+				for depth := 0; depth < 8; depth++ {
+					switch x := v.(type) {
+					case *ssa.FieldAddr:
+						v = x.X
+						continue
+					case *ssa.IndexAddr:
+						v = x.X
+						continue
+					case *ssa.Global:
+						det = append(det, cx.P.Pos(in.Pos())+": "+callee.String()+" on the package-level variable "+x.Name()+" below Step/Run (state shared by all CPUs)")
+					}
+					break
+				}
+			}
+		}
+	}
+	sort.Strings(det)
+	r.Check(len(det) == 0, "C10/isolation/no-shared-sync-objects", "PRIVATE-SYNC: every sync and sync/atomic operation below Step/Run works on a cell of the call's own (a local, a field of a fresh object), never on a package-level variable", cx.P.Pos(cx.E.Step.Pos()), "shape", det...)
+	r.Analysed["sync_call_sites"] = atomics
 
 	// 4. read and write sets of all arm summaries and of the Step summary
 	ruleRW := "READ/WRITE-SET(arm): the summary's support contains only initial values of States fields, Memory/IO/handler nil-ness and bytes returned by devices; it writes only States fields and HALT"
@@ -369,4 +426,11 @@ func collectLeaves(t types.Type, path string, f func(string)) {
 	default:
 		f(path)
 	}
+}
+
+// handoffOK: the value summary of Run decided the hand-off between Run and its
+// goroutine and found nothing wrong with it (C13's watcher, race and leak rules).
+func handoffOK(cx *Ctx) bool {
+	sem := cx.runSem()
+	return sem.err == nil && sem.hasWatcher && len(sem.watch) == 0 && len(sem.race) == 0 && len(sem.leak) == 0
 }
